@@ -191,7 +191,7 @@ def check_history(xs: List[int], ops: List[int], k: int) -> bool:
     pre: len(xs) <= B.FLOW
     pre: 1 <= len(ops) <= B.HIST
     pre: 0 <= k <= len(xs)
-    pre: h.in_shard(len(ops) + 2 * len(xs))
+    pre: h.in_shard(len(ops) - 1 + B.HIST * len(xs))
     post: _
     """
     flow = mkflow(xs, False)
@@ -273,7 +273,7 @@ CONDITIONS = [
     dict(fn="check_interrupted", budget=(70, 900),
          smoke=["check_interrupted([1, 2, 3], False, 3, 0, 0)",
                 "check_interrupted([1, 2, 3], False, 3, 2, 1)"]),
-    dict(fn="check_history", shards=(12, 16), budget=(70, 1200),
+    dict(fn="check_history", shards=(15, 24), budget=(70, 1200),
          smoke=["check_history([1, 2], [0, 0, 3], 1)", "check_history([1, 2], [0, 2, 1], 1)"]),
     dict(fn="check_two_caches", budget=(60, 600),
          smoke=["check_two_caches([1, 2], 3, 1)", "check_two_caches([1, 2], 1, 0)",
